@@ -66,12 +66,14 @@ example : calcMR 0 1 none ([[(0, 1/4)], [(50, 1/8), (200, 1/2)]].foldl addTaxSca
     simp at hb
     rcases hb with e | e <;> subst e <;> exact ⟨by decide +kernel, by decide +kernel⟩) 300 _ (by decide +kernel)).1
 
-/-- `combine_tax_scales(node)` (no accumulator given): the marginal-rate children are added to
-the scale `[(0, 0)]`; other children are skipped; an empty node gives back the accumulator -/
-theorem C09_combine_tax_scales (ε f : Rat) (hf : 0 < f + ε) (children : List (Option Scale))
-    (hch : ∀ b, some b ∈ children → StrictSorted b ∧ ∀ c ∈ b, 0 ≤ c.1) (hne : children ≠ []) (x : Rat) :
-    ∃ r, combineTaxScales children none = some r ∧
-      calcMR ε f none r x = ((children.filterMap id).map (fun b => calcMR ε f none b x)).sum := by
+/-- `combine_tax_scales(node, combined)`: the marginal-rate children are added, in order, to the
+accumulator — `[(0, 0)]` when none is given —, other children are skipped -/
+theorem C09_combine_tax_scales (ε f : Rat) (hf : 0 < f + ε) (children : List (Option Scale)) (combined : Option Scale)
+    (hch : ∀ b, some b ∈ children → StrictSorted b ∧ ∀ c ∈ b, 0 ≤ c.1) (hne : children ≠ [])
+    (hc : ∀ c ∈ combined, StrictSorted c) (x : Rat) :
+    ∃ r, combineTaxScales children combined = some r ∧
+      calcMR ε f none r x = (match combined with | some c => calcMR ε f none c x | none => 0)
+        + ((children.filterMap id).map (fun b => calcMR ε f none b x)).sum := by
   have key : ∀ (cs : List (Option Scale)), (∀ b, some b ∈ cs → StrictSorted b ∧ ∀ c ∈ b, 0 ≤ c.1) →
       ∀ a, StrictSorted a →
       cs.foldl addChild a = (cs.filterMap id).foldl addTaxScale a := by
@@ -88,28 +90,42 @@ theorem C09_combine_tax_scales (ε f : Rat) (hf : 0 < f + ε) (children : List (
         exact ih (fun b hb => h b (List.mem_cons_of_mem _ hb)) _ (C09_combine_sum ε f hf a b ha hb hnn x).2
   have h0 : addBracket [] 0 0 = [(0, 0)] := by decide +kernel
   have hs0 : StrictSorted [((0 : Rat), (0 : Rat))] := by simp [StrictSorted]
+  have hall : ∀ b ∈ children.filterMap id, StrictSorted b ∧ ∀ c ∈ b, 0 ≤ c.1 := by
+    intro b hb
+    rw [List.mem_filterMap] at hb
+    obtain ⟨o, ho, e⟩ := hb
+    simp only [id] at e
+    subst e
+    exact hch b ho
   cases children with
   | nil => exact absurd rfl hne
   | cons c cs =>
-    refine ⟨_, rfl, ?_⟩
-    simp only [h0]
-    rw [key (c :: cs) hch _ hs0]
-    have hall : ∀ b ∈ (c :: cs).filterMap id, StrictSorted b ∧ ∀ c ∈ b, 0 ≤ c.1 := by
-      intro b hb
-      rw [List.mem_filterMap] at hb
-      obtain ⟨o, ho, e⟩ := hb
-      simp only [id] at e
-      subst e
-      exact hch b ho
-    rw [(C09_combine_sequence ε f hf _ hall x _ hs0).1]
-    have : calcMR ε f none [(0, 0)] x = 0 := by
-      simp [calcMR, mapT, clipSum, brTerm]
-    rw [this]; ring
+    cases combined with
+    | none =>
+      refine ⟨_, rfl, ?_⟩
+      simp only [h0]
+      rw [key (c :: cs) hch _ hs0, (C09_combine_sequence ε f hf _ hall x _ hs0).1]
+      have : calcMR ε f none [(0, 0)] x = 0 := by
+        simp [calcMR, mapT, clipSum, brTerm]
+      rw [this]
+    | some a =>
+      have ha := hc a rfl
+      refine ⟨_, rfl, ?_⟩
+      simp only
+      rw [key (c :: cs) hch _ ha, (C09_combine_sequence ε f hf _ hall x _ ha).1]
 
 theorem C09_combine_tax_scales_empty (combined : Option Scale) : combineTaxScales [] combined = combined := rfl
 
 example : combineTaxScales [some [(0, 1/4)], none, some [(50, 1/8)]] none = some [(0, 1/4), (50, 3/8)] := by
   decide +kernel
+example : ∃ r, combineTaxScales [some [(0, 1/4)], none, some [(50, 1/8)]] (some [(100, 1/2)]) = some r ∧
+    calcMR 0 1 none r 200 = (match (some [(100, 1/2)] : Option Scale) with | some c => calcMR 0 1 none c 200 | none => 0)
+      + (([some [(0, 1/4)], none, some [(50, 1/8)]].filterMap id).map (fun b => calcMR 0 1 none b 200)).sum :=
+  C09_combine_tax_scales 0 1 (by decide +kernel) _ _ (by
+    intro b hb
+    simp at hb
+    rcases hb with e | e <;> subst e <;> exact ⟨by decide +kernel, by decide +kernel⟩) (by simp)
+    (by intro c hc; simp at hc; subst hc; decide +kernel) 200
 
 /-! ## inverse -/
 
